@@ -1345,6 +1345,22 @@ impl DhtNetworkManager {
                 break;
             }
 
+            // Query the closest known candidates first.
+            candidates
+                .make_contiguous()
+                .sort_by(|a, b| Self::compare_node_distance(a, b, key));
+
+            // Converged once K peers have answered and no remaining candidate is
+            // closer to the key than the farthest of them. Until then every learned
+            // peer that could still belong to the K closest must be queried.
+            if best_nodes.len() >= count
+                && let (Some(worst), Some(next)) = (best_nodes.last(), candidates.front())
+                && Self::compare_node_distance(next, worst, key) != std::cmp::Ordering::Less
+            {
+                info!("[NETWORK] Converged after {} iterations", iteration);
+                break;
+            }
+
             // Select up to ALPHA unqueried nodes to query
             let mut batch: Vec<DHTNode> = Vec::new();
             while batch.len() < ALPHA && !candidates.is_empty() {
@@ -1388,7 +1404,6 @@ impl DhtNetworkManager {
 
             let results = futures::future::join_all(query_futures).await;
 
-            let mut found_new_closer = false;
             for (peer_id, result) in results {
                 queried_nodes.insert(peer_id.clone());
 
@@ -1398,6 +1413,8 @@ impl DhtNetworkManager {
                         // Add successful node to best_nodes
                         if let Some(queried_node) = batch.iter().find(|n| n.peer_id == peer_id) {
                             best_nodes.push(queried_node.clone());
+                            best_nodes.sort_by(|a, b| Self::compare_node_distance(a, b, key));
+                            best_nodes.truncate(count);
                         }
                         for mut node in nodes {
                             Self::ensure_cached_dht_key(&mut node);
@@ -1430,7 +1447,6 @@ impl DhtNetworkManager {
                                 }
                                 queued_peer_ids.insert(node.peer_id.clone());
                                 candidates.push_back(node);
-                                found_new_closer = true;
                             }
                         }
                     }
@@ -1439,6 +1455,8 @@ impl DhtNetworkManager {
                         // Add successful node to best_nodes
                         if let Some(queried_node) = batch.iter().find(|n| n.peer_id == peer_id) {
                             best_nodes.push(queried_node.clone());
+                            best_nodes.sort_by(|a, b| Self::compare_node_distance(a, b, key));
+                            best_nodes.truncate(count);
                         }
                     }
                     Err(e) => {
@@ -1447,15 +1465,6 @@ impl DhtNetworkManager {
                         // Don't add failed nodes to best_nodes - they can't be used for replication
                     }
                 }
-            }
-
-            // Sort and truncate once per iteration instead of per result
-            best_nodes.sort_by(|a, b| Self::compare_node_distance(a, b, key));
-            best_nodes.truncate(count);
-
-            if !found_new_closer {
-                info!("[NETWORK] Converged after {} iterations", iteration + 1);
-                break;
             }
 
             let snapshot: BTreeSet<String> = queued_peer_ids.iter().cloned().collect();
